@@ -51,7 +51,7 @@ FL = [f for f in sorted(FLAVOURS) if f != "any"]
 POOL = ["hello_request", "client_hello", "server_hello", "ccs",
         "finished_bad", "key_update", "nst13", "cert_request13", "appdata",
         "warning_alert", "heartbeat", "server_hello_done", "finished_copy",
-        "appdata_empty"]
+        "appdata_empty", "no_certificate_alert", "cert_request12"]
 
 
 def init(tier, seed):
@@ -114,12 +114,21 @@ def pool_msg(t, trace_c, trace_s, version):
         return (22, b"\x0d" + len(body).to_bytes(3, "big") + body)
     if t == "server_hello_done":
         return (22, b"\x0e\x00\x00\x00")
+    if t == "cert_request12":
+        # certificate_types, [signature algorithms,] empty CA list
+        body = b"\x02\x01\x40"
+        if version >= (3, 3):
+            body += b"\x00\x04\x04\x01\x04\x03"
+        body += b"\x00\x00"
+        return (22, b"\x0d" + len(body).to_bytes(3, "big") + body)
     if t == "appdata":
         return (23, b"early application data")
     if t == "appdata_empty":
         return (23, b"")
     if t == "warning_alert":
         return (21, b"\x01\x5a")
+    if t == "no_certificate_alert":
+        return (21, b"\x01\x29")
     if t == "heartbeat":
         return (24, b"\x01\x00\x03abc" + b"\x00" * 16)
     raise HarnessError(t)
@@ -191,7 +200,19 @@ def classify(H, A, version, side):
         return ("late-legal" if legal_post else "late-illegal"), k
     # deviation inside the handshake part
     if k < len(An) and An[k][0] == 21:
-        return "either", k              # an alert ends the handshake anyway
+        # an alert may end the handshake - or be a warning the victim
+        # ignores: then the sequence *without* it decides (a mandatory
+        # message replaced by a warning is still missing). SSLv3 alone lets
+        # no_certificate stand in for the client Certificate.
+        if version == (3, 0) and An[k][2][1:2] == b"\x29" and \
+                k < len(Hh) and Hh[k][1] == 11:
+            return "either", k
+        A2 = [x for x in A if x[0] != 21]
+        if len(A2) < len(A):
+            v2, k2 = classify(H, A2, version, side)
+            if v2 in ("illegal", "truncated"):
+                return "illegal-unless-aborted", k
+        return "either", k
     # optional CertificateRequest added at its legal place (TLS 1.3: right
     # after EncryptedExtensions; <= 1.2: right before ServerHelloDone)
     if side == "s" and k < len(An) and An[k][1] == 13 and k > 0:
@@ -300,6 +321,23 @@ def check(case):
     # the honest trace was recorded up to the same point (tickets incl.)
     verdict, pos = classify(H, [x for x in A if x != (23, b"x")], version,
                             side)
+    if verdict != "identity" and "anon" in name and version < (3, 4) and \
+            side == "s" and any(ct == 22 and d[:1] == b"\x0d"
+                                for ct, d in A) and \
+            not any(ht == 13 for ct, ht, d in trace):
+        # RFC 5246 7.4.4: "It is a fatal handshake_failure alert for an
+        # anonymous server to request client authentication."
+        if verdict == "either":
+            verdict = "illegal"
+        # the deviant server does not expect what an accepting client would
+        # answer, so the handshake dies either way: acceptance shows in the
+        # client *answering* the request with a Certificate message
+        msgs, _, _ = tap.plaintext_flight(p.link.wire("c"))
+        if any(t == 11 for t, _ in msgs):
+            return bad("illegal-message-acted-upon:cert_request:anon",
+                       "anonymous server sent a CertificateRequest and the "
+                       "client answered with a Certificate message; case=%r"
+                       % (case,), labels=labels)
     vconn = p.conn(vic)
     vout = p.co if vic == "c" else p.so
     if state.get("keychange_coalesced") is not None:
@@ -337,6 +375,16 @@ def check(case):
             labels=labels)
     if verdict in ("either", "late-legal"):
         return good(labels=labels)
+    if verdict == "illegal-unless-aborted":
+        # the alert may legitimately have ended it; completing is not legal
+        if vout.ok:
+            sig_dev = "+".join("%s%s" % (d[0], (":" + d[2]) if len(d) > 2
+                                         else "") for d in devs)
+            return bad("completes-despite-illegal-order:%s:victim=%s:%s" % (
+                "tls13" if version == (3, 4) else "tls12-", vic, sig_dev),
+                "a mandatory message was replaced by an alert and the "
+                "victim completed; case=%r" % (case,), labels=labels)
+        return good(labels=labels + ["no-completion"])
     sig_dev = "+".join("%s%s" % (d[0], (":" + d[2]) if len(d) > 2 else "")
                        for d in devs)
     where = "%s:%s:%s" % ("tls13" if version == (3, 4) else "tls12-",
@@ -541,6 +589,13 @@ def explicit(tier, seed):
                 for t in (POOL if tier == "thorough" else POOL[i % 3::3]):
                     yield {"k": "dev", "fl": fl, "side": side,
                            "devs": [["replace", i, t]]}
+                if log[side][i][1] == 14:
+                    yield {"k": "dev", "fl": fl, "side": side,
+                           "devs": [["insert", i, "cert_request12"]]}
+                if log[side][i][1] == 11:
+                    for t in ("no_certificate_alert", "warning_alert"):
+                        yield {"k": "dev", "fl": fl, "side": side,
+                               "devs": [["replace", i, t]]}
                 if version == (3, 4):
                     for t in ("key_update", "nst13", "finished_bad"):
                         yield {"k": "dev", "fl": fl, "side": side,
